@@ -506,6 +506,40 @@ def hstep (E : Env) (h : HConn) : HOp → HConn
 
 def hrun (E : Env) (h : HConn) (ops : List HOp) : HConn := ops.foldl (hstep E) h
 
+/-! ## several `Connection` objects in one process
+
+Every `Connection` object has its own buffer, counters, queues and consumer: `__init__` builds them, nothing lives on
+the class or the module.  A process with several live connections — both ends of one link, several links with
+different transit keys at once, a new session after an earlier one has ended with unread records still queued — is
+therefore the *product* of the per-connection models: an event on connection `i` is `hstep` on component `i`, under
+that link's own environment `Es i` (its transit key), and every other component stays as it was
+(`Props.C06.links_independent`).  A new connection starts as `Conn.init`, whatever the process has seen before. -/
+
+/-- apply `f` to the `i`-th object of the process; all the others are untouched -/
+def updAt {α : Type} : List α → Nat → (α → α) → List α
+  | [], _, _ => []
+  | x :: xs, 0, f => f x :: xs
+  | x :: xs, i + 1, f => x :: updAt xs i f
+
+inductive POp where
+  /-- a new `Connection` object finishes its negotiation (`leftover` rode behind the handshake) -/
+  | start (isSender : Bool) (leftover : Bytes)
+  /-- something happens to connection `i`: bytes, an application call, a loss report, the transport holding / releasing -/
+  | on (i : Nat) (o : HOp)
+
+/-- one event in a process with the connections `p` (in order of creation); `Es i` is the environment of connection `i` -/
+def pstep (Es : Nat → Env) (p : List HConn) : POp → List HConn
+  | .start b left => p ++ [{ c := (dataReceived (Es p.length) (Conn.init b) left).1, held := [] }]
+  | .on i o => updAt p i (fun h => hstep (Es i) h o)
+
+def prun (Es : Nat → Env) (p : List HConn) (ops : List POp) : List HConn := ops.foldl (pstep Es) p
+
+/-- the events of a process schedule that concern connection `i` -/
+def opsOf (i : Nat) : List POp → List HOp
+  | [] => []
+  | .on j o :: rest => if j = i then o :: opsOf i rest else opsOf i rest
+  | .start _ _ :: rest => opsOf i rest
+
 /-- `send_record` for each record in turn (stops at the first exception) -/
 def sendMany (E : Env) : Conn → List Bytes → Conn × Option Err
   | c, [] => (c, none)
@@ -604,12 +638,14 @@ def skeletonMethods : List String :=
 
 /-! ## driver (line protocol)
 
-Two model connections, `S` (`is_sender = True`) and `R` (`is_sender = False`), and one table of
-sealings `(key, nonce, sealed, plaintext)`: the ideal AEAD functionality.  Keys are named by their
-`CTXinfo` (the driver's `hkdf` returns the `CTXinfo` itself).
+A process of model connections, named `S` / `R` (the two ends of the first link; `is_sender` = the name starts with
+`S`), `S1` / `R1`, `S2` / `R2`, … (further links, each with its own transit key), and one table of sealings
+`(key, nonce, sealed, plaintext)`: the ideal AEAD functionality.  Keys are named by link and `CTXinfo` (the driver's
+`hkdf` returns `transit key ++ CTXinfo`; the transit key of link `k` is the digits of `k`, of the first link empty).
+Every line acts on the one connection it names (`updAt`), the others are untouched.
 
 ```
-start <S|R> <hex leftover>                  -> summary      (connection as _negotiationSuccessful leaves it)
+start <name> <hex leftover>                 -> summary      (a NEW connection object, as _negotiationSuccessful leaves it)
 seal <hex ctxinfo> <hex nonce> <hex pt> <hex sealed>  -> ok   (register a sealing made by a key holder)
 send <S|R> <hex pt> <hex sealed>            -> summary      (send_record; registers the sealing under the
                                                              model's own send key and nonce first)
@@ -647,17 +683,28 @@ def tableBox (t : List Sealing) : Box :=
       | some s => some s.pt
       | none => none }
 
-def drvEnv (t : List Sealing) : Env :=
-  { box := tableBox t, hkdf := fun _ _ info => info, transitKey := [] }
+/-- the link a connection name belongs to: `S` / `R` are the two ends of the first link, `S1` / `R1`, `S2` / `R2`, …
+    those of further links, each with its own transit key -/
+def linkOf (w : String) : Bytes := (w.toList.drop 1).map Char.toNat
 
+def validName (w : String) : Bool := (w.startsWith "S" || w.startsWith "R") && (w.toList.drop 1).all Char.isDigit
+
+/-- keys are named by transit key (= link) and `CTXinfo`: the driver's `hkdf` returns `key ++ CTXinfo`; the first
+    link's transit key is empty -/
+def drvEnv (t : List Sealing) (w : String) : Env :=
+  { box := tableBox t, hkdf := fun key _ info => key ++ info, transitKey := linkOf w }
+
+/-- the process: every connection object made so far, in order of creation, each with what its transport holds -/
 structure DrvSt where
   table : List Sealing
-  s : Option Conn
-  r : Option Conn
-  heldS : List Bytes := []
-  heldR : List Bytes := []
+  names : List String
+  proc : List HConn
 
-def drvInit : DrvSt := { table := [], s := none, r := none }
+def drvInit : DrvSt := { table := [], names := [], proc := [] }
+
+def nameIdx : List String → String → Option Nat
+  | [], _ => none
+  | n :: ns, w => if n == w then some 0 else (nameIdx ns w).map (· + 1)
 
 def showEv : Ev → Option String
   | .assigned _ _ => none          -- not visible from outside at the time it happens
@@ -711,19 +758,18 @@ def parseScript (tok : String) : Option (List Act) :=
   if tok == "-" then some []
   else ((tok.splitOn ".").foldlM scriptToken []).map List.reverse
 
-def getConn (s : DrvSt) (w : String) : Option Conn :=
-  if w == "S" then s.s else if w == "R" then s.r else none
+def getConn (s : DrvSt) (w : String) : Option (Nat × HConn) :=
+  match nameIdx s.names w with
+  | none => none
+  | some i => (s.proc[i]?).map (fun h => (i, h))
 
-def setConn (s : DrvSt) (w : String) (c : Conn) : DrvSt :=
-  if w == "S" then { s with s := some c } else { s with r := some c }
-
-/-- apply `f` to the named connection and print the summary with the events it added -/
-def onConn (s : DrvSt) (w : String) (f : Conn → Conn × Option Err) : DrvSt × String :=
+/-- apply `f` to the named connection (and to nothing else: `updAt`) and print the summary with the events it added -/
+def onConn (s : DrvSt) (w : String) (f : HConn → HConn × Option Err) : DrvSt × String :=
   match getConn s w with
   | none => (s, "bad-op")
-  | some c =>
-    let (c', e) := f c
-    (setConn s w c', showConn c.app.log.length c' e)
+  | some (i, h) =>
+    let (h', e) := f h
+    ({ s with proc := updAt s.proc i (fun _ => h') }, showConn h.c.app.log.length h'.c e)
 
 def stepLine (s : DrvSt) (line : String) : DrvSt × String :=
   match tokens line with
@@ -731,11 +777,13 @@ def stepLine (s : DrvSt) (line : String) : DrvSt × String :=
   | ["start", w, h] =>
     match fromHex? h with
     | some left =>
-      if w == "S" || w == "R" then
-        -- `_negotiationSuccessful()`, then `_dataReceived` falls through to the records branch
-        let c0 := Conn.init (w == "S")
-        let (c1, e) := dataReceived (drvEnv s.table) c0 left
-        (setConn s w c1, showConn 0 c1 e)
+      if validName w then
+        -- a new Connection object: `_negotiationSuccessful()`, then `_dataReceived` falls through to the records branch
+        let (c1, e) := dataReceived (drvEnv s.table w) (Conn.init (w.startsWith "S")) left
+        let h1 : HConn := { c := c1, held := [] }
+        match nameIdx s.names w with
+        | some i => ({ s with proc := updAt s.proc i (fun _ => h1) }, showConn 0 c1 e)
+        | none => ({ s with names := s.names ++ [w], proc := s.proc ++ [h1] }, showConn 0 c1 e)
       else (s, "bad-op")
     | none => (s, "bad-op")
   | ["seal", ctx, n, p, sl] =>
@@ -745,48 +793,36 @@ def stepLine (s : DrvSt) (line : String) : DrvSt × String :=
     | _, _, _, _ => (s, "bad-op")
   | ["send", w, p, sl] =>
     match fromHex? p, fromHex? sl, getConn s w with
-    | some p, some sl, some c =>
-      let E0 := drvEnv s.table
-      let t := { key := senderRecordKey E0 c.isSender, nonce := beFixed 24 c.sendNonce, sealed := sl, pt := p } :: s.table
+    | some p, some sl, some (_, h) =>
+      let E0 := drvEnv s.table w
+      let t := { key := senderRecordKey E0 h.c.isSender, nonce := beFixed 24 h.c.sendNonce, sealed := sl, pt := p } :: s.table
       let s1 := { s with table := t }
-      onConn s1 w (fun c => sendRecord (drvEnv t) c p)
+      onConn s1 w (fun h => let (c', e) := sendRecord (drvEnv t w) h.c p; ({ h with c := c' }, e))
     | _, _, _ => (s, "bad-op")
   | ["data", w, h] =>
     match fromHex? h with
-    | some b => onConn s w (fun c => dataReceived (drvEnv s.table) c b)
+    | some b => onConn s w (fun h => let (c', e) := dataReceived (drvEnv s.table w) h.c b; ({ h with c := c' }, e))
     | none => (s, "bad-op")
   | ["call", w, sc] =>
     match parseScript sc with
-    | some acts => onConn s w (fun c => ({ c with app := appCall c.app acts }, none))
+    | some acts => onConn s w (fun h => (hstep (drvEnv s.table w) h (.op (.call acts)), none))
     | none => (s, "bad-op")
   | ["hold", w, h] =>
-    match fromHex? h, getConn s w with
-    | some b, some c =>
-      let s1 := if w == "S" then { s with heldS := s.heldS ++ [b] } else { s with heldR := s.heldR ++ [b] }
-      (s1, showConn c.app.log.length c none)
-    | _, _ => (s, "bad-op")
-  | ["resume", w] =>
-    let held := if w == "S" then s.heldS else s.heldR
-    let s1 := if w == "S" then { s with heldS := [] } else { s with heldR := [] }
-    onConn s1 w (fun c => ((hstep (drvEnv s.table) { c := c, held := held } .resume).c, none))
+    match fromHex? h with
+    | some b => onConn s w (fun h => (hstep (drvEnv s.table w) h (.hold b), none))
+    | none => (s, "bad-op")
+  | ["resume", w] => onConn s w (fun h => (hstep (drvEnv s.table w) h .resume, none))
   | ["attachready", w, e, sc] =>
     let ex? : Option (Option Nat) := if e == "n" then some none else e.toNat?.map some
     match ex?, parseScript sc with
-    | some ex, some acts =>
-      let held := if w == "S" then s.heldS else s.heldR
-      match getConn s w with
-      | none => (s, "bad-op")
-      | some c =>
-        let h' := hstep (drvEnv s.table) { c := c, held := held } (.attachReady ex acts)
-        let s1 := if w == "S" then { s with heldS := h'.held } else { s with heldR := h'.held }
-        (setConn s1 w h'.c, showConn c.app.log.length h'.c none)
+    | some ex, some acts => onConn s w (fun h => (hstep (drvEnv s.table w) h (.attachReady ex acts), none))
     | _, _ => (s, "bad-op")
   | ["lost", w, why] =>
     let r? : Option LossReason :=
       if why == "done" then some .done else if why == "reset" then some .reset else if why == "none" then some .none
       else none
     match r? with
-    | some r => onConn s w (fun c => ({ c with app := connectionLostR c.app r }, none))
+    | some r => onConn s w (fun h => ({ h with c := { h.c with app := connectionLostR h.c.app r } }, none))
     | none => (s, "bad-op")
   | _ => (s, "bad-op")
 
